@@ -119,3 +119,205 @@ def eqlen1(ctx, prog, cfg, rule="EQLEN1", floor=3):
                       "both lengths are `%s`" % mir.fmt(ld2, f)[:100], cfg)
     ctx.floor(rule, "equal-length API call sites", n, floor, cfg)
     return n
+
+
+# --------------------------------------------------------------------------------------------------
+# piece algebra: which physical interval of the backing array a slice expression denotes
+# --------------------------------------------------------------------------------------------------
+
+_IDENTITY_CALLS = ("slice_assume_init_ref", "slice_assume_init_mut", "<[MaybeUninit<T>]>::assume_init_ref", "<[MaybeUninit<T>]>::assume_init_mut")
+
+
+def lin(e, sign=1, acc=None):
+    """linear normal form {term: coeff, 1: const} of a usize expression built from Add/Sub/ints (subtractions are
+    taken at face value: their non-underflow is SUB1's business)"""
+    if acc is None:
+        acc = {}
+    e = mir.strip_casts(e)
+    if isinstance(e, tuple) and e and e[0] == "int":
+        acc[1] = acc.get(1, 0) + sign * e[1]
+    elif isinstance(e, tuple) and e and e[0] == "binop" and e[1] in ("Add", "Sub", "AddUnchecked", "SubUnchecked"):
+        lin(e[2], sign, acc)
+        lin(e[3], sign if e[1].startswith("Add") else -sign, acc)
+    else:
+        acc[e] = acc.get(e, 0) + sign
+    return acc
+
+
+def lin_key(a):
+    return tuple(sorted(((repr(k), v) for k, v in a.items() if v != 0)))
+
+
+def lin_add(a, b):
+    out = dict(a)
+    for k, v in b.items():
+        out[k] = out.get(k, 0) + v
+    return out
+
+
+def piece(f, e, depth=0):
+    """('items', base, lo, hi) with lo/hi linear forms, ('empty',) for a slice of a zero-length constant, or None"""
+    e = mir.strip_casts(e)
+    if not isinstance(e, tuple) or not e or depth > 12:
+        return None
+    if e[0] == "ref" and isinstance(e[1], tuple) and e[1][0] == "local" and len(e[1]) > 2:
+        return piece(f, e[1][2], depth + 1)
+    if e[0] == "call" and e[1] in _IDENTITY_CALLS and len(e[2]) == 1:
+        return piece(f, e[2][0], depth + 1)
+    if e[0] == "unsize":
+        if str(e[2]) == "0":
+            return ("empty",)
+        inner = mir.strip_casts(e[1])
+        if isinstance(inner, tuple) and inner[0] == "ref" and isinstance(inner[1], tuple) and inner[1][0] == "place" and tuple(inner[1][2]) == ("items",):
+            n = ("int", int(e[2])) if str(e[2]).isdigit() else ("cparam", e[2])
+            return ("items", inner[1][1], {}, lin(n))
+        return None
+    if e[0] == "ref" and isinstance(e[1], tuple) and e[1][0] == "place" and tuple(e[1][2]) == ("items",):
+        cp = guards.buffer_cparam(f, e[1][1]) or "N"
+        return ("items", e[1][1], {}, lin(("cparam", cp)))
+    if e[0] == "const" or (e[0] == "ref" and isinstance(e[1], tuple) and e[1][:1] == ("const",)):
+        return ("empty",)
+    if _is_index(e):
+        base, r = e[2]
+        p = piece(f, base, depth + 1)
+        if p is None or not (isinstance(r, tuple) and r[0] == "agg"):
+            return None
+        if p[0] == "empty":
+            return p
+        d = dict(r[3])
+        v = r[2]
+        _, b0, lo, hi = p
+        if v == "RangeFull":
+            return p
+        if v == "RangeTo":
+            return ("items", b0, lo, lin_add(lo, lin(d["end"])))
+        if v == "RangeFrom":
+            return ("items", b0, lin_add(lo, lin(d["start"])), hi)
+        if v == "Range":
+            return ("items", b0, lin_add(lo, lin(d["start"])), lin_add(lo, lin(d["end"])))
+        return None
+    if e[0] == "field" and e[2] in ("0", "1") and isinstance(e[1], tuple) and e[1][:1] == ("call",) and e[1][1] in ("<[T]>::split_at", "<[T]>::split_at_mut") and len(e[1][2]) == 2:
+        p = piece(f, e[1][2][0], depth + 1)
+        if p is None or p[0] == "empty":
+            return p
+        _, b0, lo, hi = p
+        k = lin_add(lo, lin(e[1][2][1]))
+        return ("items", b0, lo, k) if e[2] == "0" else ("items", b0, k, hi)
+    return None
+
+
+VIEW_FNS = ("CircularBuffer::as_slices", "CircularBuffer::as_mut_slices", "CircularBuffer::slices_uninit_mut", "CircularBuffer::drop_range",
+            "Drain::as_slices", "Drain::as_mut_slices")
+
+
+def _is_start(e):
+    return isinstance(e, tuple) and e[0] == "load" and tuple(e[2]) == ("start",) and e[1] == ("param", 1)
+
+
+def _is_end(e):
+    """add_mod(self.start, self.size, N)"""
+    return (isinstance(e, tuple) and e[:2] == ("call", "add_mod") and len(e[2]) == 3 and _is_start(mir.strip_casts(e[2][0]))
+            and mir.is_load_of(mir.strip_casts(e[2][1]), "size") and mir.strip_casts(e[2][2])[:1] == ("cparam",))
+
+
+def _is_sub(which):
+    def pred(e):
+        if not (isinstance(e, tuple) and e[:2] == ("call", "add_mod") and len(e[2]) == 3):
+            return False
+        a, b_, n = (mir.strip_casts(x) for x in e[2])
+        return a == ("param", 2) and isinstance(b_, tuple) and b_[0] == "field" and b_[2] == which and b_[1] == ("param", 4) and n[:1] == ("cparam",)
+    return pred
+
+
+VIEW_ROLES = {
+    "CircularBuffer::as_slices": (_is_start, _is_end, "the occupied region [start, add_mod(start, size, N))"),
+    "CircularBuffer::as_mut_slices": (_is_start, _is_end, "the occupied region [start, add_mod(start, size, N))"),
+    "CircularBuffer::slices_uninit_mut": (_is_end, _is_start, "the free region [add_mod(start, size, N), start)"),
+    "CircularBuffer::drop_range": (_is_sub("start"), _is_sub("end"), "[add_mod(start, range.start, N), add_mod(start, range.end, N))"),
+}
+
+
+def view2(ctx, prog, cfg, rule="VIEW2", only=None):
+    """The two-piece views denote one circular interval of the backing array, lo -> hi: where the function builds
+    the contiguous form it is ([lo, hi), empty), where it builds the wrapped form it is ([lo, N), [0, hi)) with the
+    same lo and hi — decided by evaluating the slicing expressions to physical intervals (items[a..b], split_at
+    pieces, re-slicing), whatever they are spelled with; and what is returned are the two pieces in that order."""
+    for short in VIEW_FNS:
+        if only is not None and short not in only:
+            continue
+        f = prog.fn(short)
+        if f is None or not f.has_mir:
+            ctx.violate(rule, short, "anchor-missing", "?", "view function not found", cfg)
+            continue
+        tuples = []
+        for b, i, st, is_term in f.positions(False):
+            if is_term or st["k"] != "assign" or st["rv"]["k"] != "aggregate" or st["rv"].get("agg") != "tuple" or len(st["rv"].get("fields", [])) != 2:
+                continue
+            e = f.deep_simplify(f.rvalue_expr(st["rv"], b, i))
+            ps = [piece(f, x[1]) for x in e[3]]
+            if None in ps:
+                continue
+            tuples.append((b, i, ps))
+        contig = [(b, i, ps) for b, i, ps in tuples if ps[0][0] == "items" and ps[1][0] == "empty"]
+        wrapped = [(b, i, ps) for b, i, ps in tuples if ps[0][0] == "items" and ps[1][0] == "items"]
+        fmtl = lambda a: " + ".join(("%s" % v if k == 1 else ("%s*%s" % (v, mir.fmt(k, f)[:40]) if v != 1 else mir.fmt(k, f)[:40])) for k, v in a.items() if v != 0) or "0"
+        if len(contig) != 1 or len(wrapped) != 1:
+            ctx.violate(rule, short, "one contiguous and one wrapped form", f.loc,
+                        "`%s` does not build exactly one contiguous form (piece, empty) and one wrapped form (piece, piece) of slices of the "
+                        "backing array (%d / %d found): the rule cannot relate the two and fails closed" % (short, len(contig), len(wrapped)), cfg)
+            continue
+        (cb, ci, cps), (wb, wi, wps) = contig[0], wrapped[0]
+        lo, hi = cps[0][2], cps[0][3]
+        n_ = wps[0][3]
+        ok = lin_key(wps[0][2]) == lin_key(lo) and lin_key(wps[1][2]) == lin_key({}) and lin_key(wps[1][3]) == lin_key(hi) and \
+            len(n_) == 1 and all(isinstance(k, tuple) and k[0] in ("cparam", "int") for k in n_ if k != 1)
+        ctx.check(ok, rule, short, "wrapped form = ([lo, N), [0, hi)) of the contiguous form's [lo, hi)", short_loc(f, wb, wi),
+                  "`%s`: the contiguous form is items[%s .. %s] but the wrapped form is (items[%s .. %s], items[%s .. %s]): the two forms do not "
+                  "denote the same circular interval — slots are skipped, shown twice or taken from outside it"
+                  % (short, fmtl(lo), fmtl(hi), fmtl(wps[0][2]), fmtl(wps[0][3]), fmtl(wps[1][2]), fmtl(wps[1][3])),
+                  "lo = %s, hi = %s" % (fmtl(lo), fmtl(hi)), cfg)
+        # which interval: the occupied region / its complement / the requested sub-range
+        role = VIEW_ROLES.get(short)
+        if role is not None:
+            def single(a):
+                ks = [k for k, v in a.items() if v != 0]
+                return ks[0] if len(ks) == 1 and a[ks[0]] == 1 and ks[0] != 1 else None
+            tl, th = single(lo), single(hi)
+            okl, okh = tl is not None and role[0](tl), th is not None and role[1](th)
+            ctx.check(okl and okh, rule, short, "interval is %s" % role[2], short_loc(f, cb, ci),
+                      "`%s` presents the interval items[%s .. %s), which is not %s" % (short, fmtl(lo), fmtl(hi), role[2]),
+                      "lo = %s, hi = %s" % (fmtl(lo), fmtl(hi)), cfg)
+        # what is returned: the joined pair, first piece first
+        okr = True
+        whyr = ""
+        from . import common
+
+        rets = [mir.strip_casts(f.deep_simplify(f.rvalue_expr(pl, rb_, ri_))) for (rb_, ri_, k_, pl) in common.ret_assignments(f) if k_ == "stmt"]
+        if not rets:
+            rets = [mir.strip_casts(f.deep_simplify(f.return_expr(rb))) for rb in f.return_blocks()]
+        for e in rets:
+            comps = []
+            if isinstance(e, tuple) and e[0] == "agg" and e[1] == "tuple" and len(e[3]) == 2:
+                for _, x in e[3]:
+                    x = mir.strip_casts(x)
+                    while isinstance(x, tuple) and x[0] == "call" and x[1] in _IDENTITY_CALLS:
+                        x = mir.strip_casts(x[2][0])
+                    comps.append(x)
+            elif isinstance(e, tuple) and e[0] == "phi":
+                continue  # the joined pair returned as it is
+            elif isinstance(e, tuple) and e[0] in ("const",) or e == ("agg", "tuple", "", ()):
+                continue  # returns nothing (drop_range hands the pieces to its droppers)
+            else:
+                okr, whyr = False, "returns `%s`" % mir.fmt(e, f)[:80]
+                continue
+            if all(piece(f, x) == ("empty",) for x in comps):
+                continue
+            ps_ = [piece(f, x) for x in comps]
+            if None not in ps_ and len(ps_) == 2:
+                def keyp(p_):
+                    return ("empty",) if p_[0] == "empty" else (lin_key(p_[2]), lin_key(p_[3]))
+                if [keyp(x) for x in ps_] in ([keyp(x) for x in cps], [keyp(x) for x in wps]):
+                    continue  # one of the two forms returned directly
+            if not (len(comps) == 2 and all(isinstance(x, tuple) and x[0] == "field" for x in comps) and comps[0][2] == "0" and comps[1][2] == "1" and comps[0][1] == comps[1][1]):
+                okr, whyr = False, "returns (%s) — not the two pieces in order" % ", ".join(mir.fmt(x, f)[:50] for x in comps)
+        ctx.check(okr, rule, short, "returns (first piece, second piece)", f.loc, "`%s` %s" % (short, whyr), "the joined pair, in order", cfg)
